@@ -12,6 +12,7 @@ from epsie import proposals as P
 from .. import core
 from ..models import GaussModel
 from ..trace import GenTap
+from .. import dens
 
 getcontext().prec = 60
 ASSUMPTIONS = [
@@ -468,6 +469,8 @@ def run(seed, tier):
         if what:
             out.violations.append(dict(what=what, replay=rep))
     pt_levels_check(rng, out, 24 if thorough else 6)
+    # the q of the ratio is the law of the jump: a bounded eigenvector jump draws its direction once
+    dens.forced_redraw_block(rng, out, 40 if thorough else 8)
     failing = core.run_coq_cases('C01', HEADER, terms, per_file=500)
     codes = {1: 'acceptance differs', 2: 'ratio differs', 3: 'uniform consumption differs', 4: 'NaN handling differs'}
     for f in failing[:10]:
